@@ -5,7 +5,7 @@
 #  - its demonstration fails with the change (exit 1) and passes without it (exit 0; the agent's
 #    unchanged build AND /verif's build of /repo)
 # then copies patch/demo/meta to seeded/<Cnn>/*_<k>.* (meta gains a "confirmed" block) and removes the worktree.
-id=$1; k=$2; wt=${3:-/tmp/wt/${id}r3}
+id=$1; k=$2; wt=${3:-/tmp/wt/${id}r${k}}
 S=$wt/SEED
 [ -f $S/patch.diff ] || { echo "$id: no patch.diff"; exit 2; }
 cd $wt || exit 2
